@@ -821,3 +821,64 @@ func RunLosslessControls(r *Report) {
 	}
 	r.Floor("losslesscontrol", 20)
 }
+
+// RunLoopControls runs the termination rule on the ctlLoop* examples of
+// /verif/controls/loops.go.
+func RunLoopControls(r *Report) {
+	r.Rule("loopcontrol: the termination rule, run on the must-report and must-pass examples in /verif/controls/loops.go, finds no termination argument for any loop that can run for ever (step of unknown sign, continue without progress, != with a step of 2, 16-bit counters that wrap, a decrement that undoes the increment, a moving bound, list and work-list traversals of possibly cyclic data, alternating counters, unsigned count-down, a slice that grows with the counter) and one for each loop that always ends")
+	cw, err := controlWorld(r.verifDir)
+	if err != nil {
+		r.Fail("loopcontrol", r.MkKey("loopcontrol", "controls", "load"), "-", "cannot load the control package: "+err.Error(), nil)
+		return
+	}
+	var fns []*ssa.Function
+	for _, f := range cw.LibFuncs() {
+		if strings.HasPrefix(f.Name(), "ctlLoop") && f.Name() != "ctlLoopAlias" && f.Parent() == nil {
+			fns = append(fns, f)
+		}
+	}
+	sort.Slice(fns, func(i, j int) bool { return fnName(fns[i]) < fnName(fns[j]) })
+	sub := NewReport(r.Property, r.Tier, r.verifDir)
+	sub.table = map[string]TableEntry{}
+	sub.known = map[string]KnownFinding{}
+	sub.W = cw
+	func() {
+		defer func() {
+			if x := recover(); x != nil {
+				r.Fatal("loopterm panic on the control package: %v", x)
+			}
+		}()
+		runLoopTerm(cw, sub, newBoundsRun(cw), fns, false)
+	}()
+	for _, fn := range fns {
+		reported, total := "", 0
+		for _, o := range sub.Obls {
+			if o.Rule != "loopterm" {
+				continue
+			}
+			parts := strings.Split(o.Key, "|")
+			if len(parts) < 2 || parts[1] != fnName(fn) {
+				continue
+			}
+			total++
+			if o.Status == StViolation && reported == "" {
+				reported = o.Detail
+			}
+		}
+		key := r.MkKey("loopcontrol", fn.Name(), "verdict")
+		bad := strings.HasPrefix(fn.Name(), "ctlLoopBad")
+		switch {
+		case total == 0:
+			r.Fail("loopcontrol", key, cw.Pos(fn.Pos()), "the rule found no loop in this example", nil)
+		case bad && reported != "":
+			r.OK("loopcontrol", key, cw.Pos(fn.Pos()), "no termination argument, as it must be")
+		case bad:
+			r.Fail("loopcontrol", key, cw.Pos(fn.Pos()), "this loop can run for ever and the rule accepts a termination argument for it: the rule is unsound", nil)
+		case reported == "":
+			r.OK("loopcontrol", key, cw.Pos(fn.Pos()), "termination argument found")
+		default:
+			r.Fail("loopcontrol", key, cw.Pos(fn.Pos()), "this terminating example is reported: "+reported, nil)
+		}
+	}
+	r.Floor("loopcontrol", 24)
+}
